@@ -119,9 +119,11 @@ func cone(w *World, id string) []*FuncInfo {
 			return // uncontracted callees are havoc at the call site; their bodies are not part of this proof
 		}
 		for _, c := range w.callees[fi] {
-			// a tool's main is in the cone for what main itself does (dispatch, order, output); the library functions it
-			// calls belong to the properties their own contracts name, not to every property of the tool
-			if fi.PkgDir != c.PkgDir && fi.PkgDir != "." {
+			// cmd/bkl's main is in the cones of C03/C05/C18 for what main itself does (dispatch, order, output); the library
+			// functions it calls belong to the properties their own contracts name. The other tools (bkld, bkli, bklr, the
+			// wrapper) ARE their properties: what they print rests on loading, layering and evaluating their inputs, so the
+			// library functions they reach are part of their cones.
+			if fi.PkgDir != c.PkgDir && fi.PkgDir == "cmd/bkl" {
 				continue
 			}
 			add(c, true)
